@@ -34,6 +34,11 @@ var c13Defs = []constDefs{
 	{[]string{"const K = ITEM_NONE"}, "K", "ITEM_NONE", false},
 	{[]string{"const B = 3", "const K = ( B ) + ( 2 )"}, "K", "( 3 ) + ( 2 )", true},
 	{[]string{"const J = step_end", "const K = J"}, "K", "step_end", false},
+	// the spelling of the constant's own name: non-ASCII first letter, non-ASCII inside, leading underscore, lower case with digits
+	{[]string{"const ÉTAGE = 3"}, "ÉTAGE", "3", false},
+	{[]string{"const Éa = 6", "const Ké = Éa + 1"}, "Ké", "6 + 1", false},
+	{[]string{"const _k = 4", "const _ = _k"}, "_", "4", false},
+	{[]string{"const k9z = 0x2"}, "k9z", "0x2", false},
 }
 
 const c13Template = `script S {
@@ -248,5 +253,5 @@ func runC13(tier string) int {
 	r.Assume("values with parentheses are only used at sites where nested parentheses can be written out literally (command arguments, value(...))",
 		"const lines are replaced by blank lines so that line markers stay comparable")
 	return r.Finish(r.Get("evaluations"), r.Get("nontrivial"),
-		"11 definition sets (single token, multi-token, parenthesised, const from const two levels deep, hex, negative, multi-byte identifier) x every single use site, every pair and triple (thorough: quadruple) and all 26 documented use sites (five of them inside a larger expression) at once (command argument incl. nested, flag/var/defeated operands, comparison values incl. value(), switch operand and case value, AutoVar argument and comparison, goto target, map-script table var/value and inline body, mart item) + 8 non-positions (command name, movement step, label, moves() step, text content, script/text/mapscripts names, raw) + use before definition + redefinition; outputs compared byte for byte with line markers on, optimize on/off; non-trivial = multi-token or chained definition")
+		"15 definition sets (single token, multi-token, parenthesised, const from const two levels deep, hex, negative, multi-byte value; constant names with a non-ASCII first letter, a non-ASCII letter inside, a leading underscore, lower case with digits) x every single use site, every pair and triple (thorough: quadruple) and all 26 documented use sites (five of them inside a larger expression) at once (command argument incl. nested, flag/var/defeated operands, comparison values incl. value(), switch operand and case value, AutoVar argument and comparison, goto target, map-script table var/value and inline body, mart item) + 8 non-positions (command name, movement step, label, moves() step, text content, script/text/mapscripts names, raw) + use before definition + redefinition; outputs compared byte for byte with line markers on, optimize on/off; non-trivial = multi-token or chained definition")
 }
